@@ -28,7 +28,7 @@ CHECKS = {
    note="Trusted: reference definitions of section 8 (decided alphabet; gray outside), solang-parser. Files with duplicate state-variable names are outside the quantifier and skipped.",
    technique="bounded-exhaustive enumeration of declaration sequences against iff reference detectors"),
  "C07": dict(engine="refdet+csem", ref="7/C07, 8.17-8.20",
-   text="Σ plus three dedicated spaces: the selfdestruct matrix (function kind x visibility x modifier name x 11 guard forms x 6 payout forms x callee, guard after the call or in another function, the call in every statement hole and in every expression hole of every statement, the sender check in an operand of the statement that holds the call), all {*,/,+} operator trees with <= 3 (4) operators with and without redundant parentheses under =, /= and *=, pragma values x unrelated pragmas x positions, and directory-level runs on spaced member accesses; x the 4 vulnerability detectors against the three-valued reference detectors 8.17–8.20.",
+   text="Σ plus three dedicated spaces: the selfdestruct matrix (function kind x visibility x modifier name x 18 guard forms (7 of which check an alias or look-alike and do not mention msg.sender) x 6 payout forms x callee, guard after the call or in another function, the call in every statement hole and in every expression hole of every statement, the sender check in an operand of the statement that holds the call), all {*,/,+} operator trees with <= 3 (4) operators with and without one, two and three levels of redundant parentheses under =, /= and *=, pragma values x unrelated pragmas x positions, and directory-level runs on spaced member accesses; x the 4 vulnerability detectors against the three-valued reference detectors 8.17–8.20.",
    note="Trusted: reference definitions of section 8 (gray: functions without visibility keyword, OnlyOwner-style names, mentions of msg.sender outside calls), solang-parser.",
    technique="bounded-exhaustive input-space enumeration of the implementation against three-valued reference detectors"),
  "C08": dict(engine="refdet+csem", ref="7/C08, 8.21-8.24",
